@@ -51,6 +51,8 @@ Quiesce(a) ==
 
 AgentOf(ev) == IF Has(ev, "a") THEN ev.a ELSE ev.t + 1
 
+Range(f) == {f[i] : i \in DOMAIN f}
+
 Accepts(ev) ==
   CASE ev.e = "OnlineCall"  -> G("C11", "OnlineWhileOffline", ~online[ev.a] /\ ~inq[ev.a])
     [] ev.e = "OnlineRet"   -> TRUE
@@ -61,7 +63,10 @@ Accepts(ev) ==
     [] ev.e = "AwaitCall"   -> G("C11", "NodeFree", NodeOf(ev.n).state = "free")
     [] ev.e = "AwaitRet"    -> TRUE
     [] ev.e = "RunCall"     -> TRUE
-    [] ev.e = "RunRet"      -> TRUE
+    \* run() takes a node out of the queue only to invoke its callback: a node this agent registered whose callback
+    \* has not been seen must still be queued when run() returns
+    [] ev.e = "RunRet"      -> G("C11", "RunInvokesTheCallbackOfEveryNodeItDequeues",
+                                  Has(ev, "pend") => \A n \in DOMAIN nst : (nst[n].state = "pending" /\ nst[n].reg = ev.a) => n \in Range(ev.pend))
     [] ev.e = "Callback"    ->
          /\ G("C11", "OnlyOnce", NodeOf(ev.n).state = "pending")
          /\ G("C11", "ByRegistrantInRun", NodeOf(ev.n).reg = ev.a /\ running[ev.a])
